@@ -319,6 +319,60 @@ def run_sig(ch: core.Check, sig: dict, arg_seqs: List[List[list]], literal_every
             cls.unregister(lib)
 
 
+def run_partial(ch: core.Check, sig: dict, arg_seqs: List[List[list]], rr) -> None:
+    """render() given as `functools.partial(fn, name=value)` (keyword pre-binding only, also nested): the tag must bind
+    what calling that very partial in Python binds — in particular the pre-bound value where the call omits `name`"""
+    import functools
+
+    defaulted = [p[0] for p in sig["poskw"] + sig["kwonly"] if p[1] is not None]
+    if not defaulted:
+        return
+    fn, src = make_probe(sig)
+    names = rr.sample(defaulted, min(len(defaulted), rr.choice([1, 1, 2])))
+    pfn = fn
+    for j, nm in enumerate(names):
+        pfn = functools.partial(pfn, **{nm: 7700 + j})
+    nslots = max((len(a) for a in arg_seqs), default=0)
+    cls, tag, tpl, lib = make_node(pfn, False, nslots)
+    try:
+        for args in arg_seqs:
+            if in_known_region(sig, args):
+                continue
+            py = py_call(pfn, args)
+            impl = impl_call_spread(tpl, args, nslots)
+            ch.count("partial", 1, 1)
+            ch.errkind("partial-py:" + ("ok" if "ok" in py else py["err"]))
+            if same_outcome(impl, py, args):
+                continue
+            # the plain function deviates from Python on the same call already (known regions are skipped above): not this stream's business
+            if not same_outcome(impl_call_spread(make_node_cached(fn, nslots), args, nslots), py_call(fn, args), args):
+                continue
+            ch.violation("impl-violates-spec", "partial", {"render": "functools.partial(" + src.splitlines()[0] + " ..., " +
+                                                                      ", ".join(f"{n}={7700 + j}" for j, n in enumerate(names)) + ")",
+                                                           "sig": sig, "args": args},
+                         impl=impl, spec={"python": py, "clause": "tagCall_eq_pyCall: same acceptance and same binding as the Python call"})
+            return
+    finally:
+        cls.unregister(lib)
+        for c2, l2 in _CACHED_NODES:
+            c2.unregister(l2)
+        _CACHED_NODES.clear()
+        _CACHED_TPL.clear()
+
+
+_CACHED_NODES: list = []
+_CACHED_TPL: dict = {}
+
+
+def make_node_cached(fn, nslots):
+    key = (id(fn), nslots)
+    if key not in _CACHED_TPL:
+        cls, tag, tpl, lib = make_node(fn, False, nslots)
+        _CACHED_NODES.append((cls, lib))
+        _CACHED_TPL[key] = tpl
+    return _CACHED_TPL[key]
+
+
 def real(ch: core.Check) -> bool:
     return any(v["kind"] == "impl-violates-spec" for v in ch.violations)
 
@@ -375,6 +429,18 @@ def run(tier: str) -> int:
         sig = rr.choice(big)
         seqs = [valid_call(sig, rr) for _ in range(30)]
         run_sig(ch, sig, seqs, literal_every=5, stream="valid-biased")
+    # render() as a functools.partial with pre-bound keyword arguments
+    n_part = int((150 if tier == "quick" else 3000) * ch.budget_scale)
+    for i in range(n_part):
+        if real(ch):
+            break
+        rr = core.rng(PROP, "partial", i)
+        sig = rr.choice(big)
+        seqs = [valid_call(sig, rr) for _ in range(12)]
+        for _ in range(6):
+            ks = [rr.choice(arg_alphabet(sig)) if rr.random() < 0.6 else None for _ in range(rr.randint(0, 4))]
+            seqs.append([[k, j + 1] for j, k in enumerate(ks)])
+        run_partial(ch, sig, seqs, rr)
     ch.cov["signatures"] = total_sigs
     ch.cov["exhaustive"] = not ch.violations
     ch.cov["rule"] = (
